@@ -481,24 +481,26 @@ theorem specCore_pos (cfg : Cfg) (cap : Cap) (n i : Nat) (kind : Kind) (outs err
     specCore cfg cap n i kind outs errs ins =
       specCoreB cfg cap (posOf n i).first (posOf n i).last (posOf n i).idx kind outs errs ins := rfl
 
-set_option maxRecDepth 4000 in
-set_option maxHeartbeats 4000000 in
-/-- ONE STAGE, every shape of its slots, every kind, position class, capture form and configuration: the repaired model
-delivers exactly what the documentation says (and fails exactly when the documentation says error) -/
-theorem core_fixed (cfg : Cfg) (cap : Cap) (first last : Bool) (idx : Nat) (kind : Kind)
-    (sin sout serr : Option Slot) (hin : UserIn sin) (hout : UserOut sout) (herr : UserErr serr)
-    (hinv : sout = some .pipeAll → serr = some .toStdout) :
-    Matches (modelStageP Quirks.fixed cfg cap ⟨first, last, idx⟩ (mkBuilt cfg kind sin sout serr))
-      (specCoreB cfg cap first last idx kind (sout.toList.map claimOfOutSlot) (serr.toList.map claimOfErrSlot)
-        (sin.toList.map slotTarget)) := by
-  obtain ⟨thread, always, printErr⟩ := cfg
-  rcases hin with _ | ⟨ti⟩ <;> rcases hout with _ | ⟨to, ao⟩ | _ | _ <;> rcases herr with _ | ⟨te, ae⟩ | _ | _ <;>
-    (try cases ao) <;> (try cases ae) <;> cases kind <;> rename_i b <;> cases b <;> cases first <;> cases last <;>
-    cases thread <;> cases cap <;>
-    first
-      | exact rfl
-      | exact trivial
-      | (exfalso; simp at hinv; done)
-      | (cases always <;> first | exact rfl | exact trivial)
+/-! ### the region outside the seven deviations -/
+
+/-- is an external command run threadable under a capturing form? (callable aliases: see `unthreadedAlias`) -/
+def procThreadable (cfg : Cfg) : Kind → Bool
+  | .proc pred => cfg.thread && pred
+  | .alias _ => true
+
+/-- the spec `cmds_to_specs` ends with for one stage (position class form) -/
+def finalSpecP (q : Quirks) (cfg : Cfg) (cap : Cap) (p : Pos) (built : Spec) : Option Spec :=
+  ((inAtP p built).bind (outAtP p)).bind (finAtP q cfg cap p)
+
+/-- no integer handle reaches `safe_readable` on this (last) spec -/
+def noCrash (q : Quirks) (cap : Cap) (last : Bool) (s : Spec) : Bool :=
+  !crashBefore q s && !(last && crashAfter q cap s)
+
+/-- OUTSIDE THE DEVIATION REGIONS: no `o>e`; no unthreaded callable alias; a callable alias is not the last stage of an
+uncaptured `$[ ]`; the last stage under `!( )` is threadable -/
+def Outside (cfg : Cfg) (cap : Cap) (last : Bool) (kind : Kind) (sout : Option Slot) : Prop :=
+  sout ≠ some .fd2 ∧ unthreadedAlias cfg kind = false ∧
+  (last = true → cap = .uncaptured → isAlias kind = false) ∧
+  (last = true → cap = .object → procThreadable cfg kind = true)
 
 end Redir
